@@ -840,21 +840,24 @@ func ruleR30(c *Ctx) {
 		}
 		fin := info(f)
 		if f.Obj.Name() == "UnmarshalXML" {
-			inspectNoLit(f.Body, func(m ast.Node) bool {
-				if be, ok := m.(*ast.BinaryExpr); ok && be.Op == token.EQL {
-					if sel, ok := unparen(be.X).(*ast.SelectorExpr); ok {
-						if s, ok := constString(fin, be.Y); ok {
-							switch sel.Sel.Name {
-							case "Space":
-								testedSpace = s
-							case "Local":
-								testedLocal = s
+			for _, rf := range withSamePkgCallees(p, f, 2) {
+				fin := info(rf)
+				inspectNoLit(rf.Body, func(m ast.Node) bool {
+					if be, ok := m.(*ast.BinaryExpr); ok && be.Op == token.EQL {
+						if sel, ok := unparen(be.X).(*ast.SelectorExpr); ok {
+							if s, ok := constString(fin, be.Y); ok {
+								switch sel.Sel.Name {
+								case "Space":
+									testedSpace = s
+								case "Local":
+									testedLocal = s
+								}
 							}
 						}
 					}
-				}
-				return true
-			})
+					return true
+				})
+			}
 		}
 		if f.Obj.Name() == "MarshalXML" {
 			ast.Inspect(f.Body, func(m ast.Node) bool {
@@ -878,25 +881,28 @@ func ruleR30(c *Ctx) {
 		}
 		fin := info(f)
 		if f.Obj.Name() == "UnmarshalXML" {
-			inspectNoLit(f.Body, func(m ast.Node) bool {
-				switch x := m.(type) {
-				case *ast.BinaryExpr:
-					if x.Op == token.EQL {
-						if sel, ok := unparen(x.X).(*ast.SelectorExpr); ok && sel.Sel.Name == "Value" {
-							if sv, ok := constString(fin, x.Y); ok {
-								eqConsts = append(eqConsts, sv)
+			for _, rf := range withSamePkgCallees(p, f, 2) {
+				fin := info(rf)
+				inspectNoLit(rf.Body, func(m ast.Node) bool {
+					switch x := m.(type) {
+					case *ast.BinaryExpr:
+						if x.Op == token.EQL {
+							if sel, ok := unparen(x.X).(*ast.SelectorExpr); ok && sel.Sel.Name == "Value" {
+								if sv, ok := constString(fin, x.Y); ok {
+									eqConsts = append(eqConsts, sv)
+								}
+							}
+						}
+					case *ast.CallExpr:
+						if fn := callee(fin, x); fn != nil && fn.Pkg() != nil && fn.Pkg().Path() == "strings" && fn.Name() == "HasSuffix" && len(x.Args) == 2 {
+							if sv, ok := constString(fin, x.Args[1]); ok {
+								suffixConsts = append(suffixConsts, sv)
 							}
 						}
 					}
-				case *ast.CallExpr:
-					if fn := callee(fin, x); fn != nil && fn.Pkg() != nil && fn.Pkg().Path() == "strings" && fn.Name() == "HasSuffix" && len(x.Args) == 2 {
-						if sv, ok := constString(fin, x.Args[1]); ok {
-							suffixConsts = append(suffixConsts, sv)
-						}
-					}
-				}
-				return true
-			})
+					return true
+				})
+			}
 		}
 		if f.Obj.Name() == "MarshalXML" {
 			inspectNoLit(f.Body, func(m ast.Node) bool {
@@ -1408,4 +1414,29 @@ func ruleR34(c *Ctx) {
 		}
 		c.Check(usesState, f, at, "identifier source "+f.Obj.Name(), "a function that mints identifiers must mix in state that persists between calls (a process-wide sequence or shared PRNG) or crypto/rand; a result that depends only on time.Now() repeats whenever two calls see the same clock reading", fmt.Sprintf("reads the clock; persistent state or crypto/rand involved: %v", usesState))
 	}
+}
+
+// withSamePkgCallees returns f and the declared functions of f's package that it calls (transitively, depth-bounded).
+func withSamePkgCallees(p *Prog, f *FuncInfo, depth int) []*FuncInfo {
+	seen := map[*FuncInfo]bool{f: true}
+	out := []*FuncInfo{f}
+	var walk func(g *FuncInfo, d int)
+	walk = func(g *FuncInfo, d int) {
+		if d <= 0 || g.Body == nil {
+			return
+		}
+		in := info(g)
+		inspectNoLit(g.Body, func(m ast.Node) bool {
+			if call, ok := m.(*ast.CallExpr); ok {
+				if cf := p.byObj[callee(in, call)]; cf != nil && cf.Pkg == f.Pkg && !seen[cf] && cf.Body != nil {
+					seen[cf] = true
+					out = append(out, cf)
+					walk(cf, d-1)
+				}
+			}
+			return true
+		})
+	}
+	walk(f, depth)
+	return out
 }
